@@ -60,6 +60,11 @@ impl<R: Read + Seek> ReadBox<&mut R> for UdtaBox {
                     "udta box contains a box with a larger size than it",
                 ));
             }
+            if s == 0 {
+                return Err(Error::InvalidData(
+                    "udta box contains a box with size 0",
+                ));
+            }
 
             match name {
                 BoxType::MetaBox => {
